@@ -31,37 +31,43 @@ def unpacker : Pat := ⟨Gen.trs_unpacker_regex, Gen.trs_unpacker_regex_groups, 
 
 def truthy (s : Option Str) : Bool := match s with | some (_ :: _) => true | _ => false
 
+/-- `dct['trs'] = f"{dct['twp']}{dct['rge']}{dct['sec']}"` -/
+def finalize (d : TrsDict) : TrsDict := { d with trs := d.twp ++ d.rge ++ (d.sec.getD (S "None")) }
+
+/-- the component break-down of `trs_to_dict` once the pattern has matched -/
+def buildDict (mo : Match) (trs : Str) : TrsDict :=
+  let g := fun n => unpacker.group mo trs n
+  let d := errDict
+  let d := if truthy (g "twp_num") && truthy (g "ns") then
+      { d with twp := (g "twp").getD [], twpNum := pyInt? ((g "twp_num").getD []), twpNs := g "ns" }
+    else if g "twp" == some (S Gen.UNDEF_TWP) then { d with twp := (g "twp").getD [], twpUndef := true }
+    else d
+  let d := if truthy (g "rge_num") && truthy (g "ew") then
+      { d with rge := (g "rge").getD [], rgeNum := pyInt? ((g "rge_num").getD []), rgeEw := g "ew" }
+    else if g "rge" == some (S Gen.UNDEF_RGE) then { d with rge := (g "rge").getD [], rgeUndef := true }
+    else d
+  -- try: int(sec) / except (ValueError, TypeError) / finally: dct['sec'] = sec
+  match g "sec" with
+  | none => { d with sec := some (S Gen.ERR_SEC) }       -- TypeError; sec != UNDEF -> ERR_SEC
+  | some s =>
+    match pyInt? s with
+    | some i => { d with secNum := some i, sec := some s }
+    | none =>
+      if s == S Gen.UNDEF_SEC then { d with secUndef := true, sec := some s }
+      else { d with sec := some (S Gen.ERR_SEC) }
+
+def normIn (trsIn : Option Str) : Str :=
+  match trsIn with
+  | none => S Gen.UNDEF_TRS
+  | some [] => S Gen.UNDEF_TRS
+  | some s => s
+
 /-- `TRS.trs_to_dict(trs)` for a `str` (or None) argument -/
 def trsToDict (trsIn : Option Str) : TrsDict :=
-  let trs0 : Str := match trsIn with
-    | none => S Gen.UNDEF_TRS
-    | some [] => S Gen.UNDEF_TRS
-    | some s => s
-  let trs := pyLower trs0
+  let trs := pyLower (normIn trsIn)
   match unpacker.rx.fullmatch trs with
   | none => errDict
-  | some mo =>
-    let g := fun n => unpacker.group mo trs n
-    let d := errDict
-    let d := if truthy (g "twp_num") && truthy (g "ns") then
-        { d with twp := (g "twp").getD [], twpNum := pyInt? ((g "twp_num").getD []), twpNs := g "ns" }
-      else if g "twp" == some (S Gen.UNDEF_TWP) then { d with twp := (g "twp").getD [], twpUndef := true }
-      else d
-    let d := if truthy (g "rge_num") && truthy (g "ew") then
-        { d with rge := (g "rge").getD [], rgeNum := pyInt? ((g "rge_num").getD []), rgeEw := g "ew" }
-      else if g "rge" == some (S Gen.UNDEF_RGE) then { d with rge := (g "rge").getD [], rgeUndef := true }
-      else d
-    let sec := g "sec"
-    -- try: int(sec) / except (ValueError, TypeError) / finally: dct['sec'] = sec
-    let d := match sec with
-      | none => { d with sec := some (S Gen.ERR_SEC) }       -- TypeError; sec != UNDEF -> ERR_SEC
-      | some s =>
-        match pyInt? s with
-        | some i => { d with secNum := some i, sec := some s }
-        | none =>
-          if s == S Gen.UNDEF_SEC then { d with secUndef := true, sec := some s }
-          else { d with sec := some (S Gen.ERR_SEC) }
-    { d with trs := d.twp ++ d.rge ++ (d.sec.getD (S "None")) }
+  | some mo => finalize (buildDict mo trs)
 
 def isUndef (d : TrsDict) (twp rge sec : Bool := true) : Bool :=
   (twp && d.twpUndef) || (rge && d.rgeUndef) || (sec && d.secUndef)
